@@ -3,7 +3,7 @@
 
 PLAN = {
     "C01": [
-        dict(test="TestC01", quick=(2500, 16), thorough=(40000, 16), timeout_thorough=7200),
+        dict(test="TestC01", quick=(2500, 16), thorough=(15000, 16), timeout_thorough=7200),
         # drift guard for the verif-tagged step functions (a failure here is an infrastructure failure: exit 2)
         dict(test="TestHookConformance", quick=(25, 2), thorough=(400, 4), timeout=1500, timeout_thorough=3600),
     ],
@@ -13,32 +13,32 @@ PLAN = {
         dict(test="TestC02Seq", quick=(8000, 4), thorough=(200000, 8)),
         dict(test="FuzzC02", kind="fuzz", fuzztime=240),
     ],
-    "C03": [dict(test="TestC03", quick=(2500, 16), thorough=(40000, 16), timeout_thorough=7200)],
-    "C04": [dict(test="TestC04", quick=(2500, 16), thorough=(40000, 16), timeout_thorough=7200)],
-    "C05": [dict(test="TestC05", quick=(1500, 16), thorough=(30000, 16), timeout_thorough=7200)],
+    "C03": [dict(test="TestC03", quick=(2500, 16), thorough=(15000, 16), timeout_thorough=7200)],
+    "C04": [dict(test="TestC04", quick=(2500, 16), thorough=(15000, 16), timeout_thorough=7200)],
+    "C05": [dict(test="TestC05", quick=(1500, 16), thorough=(12000, 16), timeout_thorough=7200)],
     "C07": [
-        dict(test="TestC07N", quick=(6000, 8), thorough=(150000, 8), timeout_thorough=7200),
-        dict(test="TestC07S", quick=(2000, 8), thorough=(40000, 8), timeout_thorough=7200),
+        dict(test="TestC07N", quick=(6000, 8), thorough=(60000, 8), timeout_thorough=7200),
+        dict(test="TestC07S", quick=(2000, 8), thorough=(15000, 8), timeout_thorough=7200),
     ],
     "C08": [
-        dict(test="TestC08N", quick=(6000, 8), thorough=(150000, 8), timeout_thorough=7200),
-        dict(test="TestC08S", quick=(2000, 8), thorough=(40000, 8), timeout_thorough=7200),
+        dict(test="TestC08N", quick=(6000, 8), thorough=(60000, 8), timeout_thorough=7200),
+        dict(test="TestC08S", quick=(2000, 8), thorough=(15000, 8), timeout_thorough=7200),
     ],
     "C09": [
-        dict(test="TestC09N", quick=(5000, 8), thorough=(100000, 8), timeout_thorough=7200),
-        dict(test="TestC09S", quick=(2000, 8), thorough=(40000, 8), timeout_thorough=7200),
+        dict(test="TestC09N", quick=(5000, 8), thorough=(50000, 8), timeout_thorough=7200),
+        dict(test="TestC09S", quick=(2000, 8), thorough=(15000, 8), timeout_thorough=7200),
     ],
     "C11": [
-        dict(test="TestC11", quick=(2500, 16), thorough=(40000, 16), timeout_thorough=7200),
+        dict(test="TestC11", quick=(2500, 16), thorough=(15000, 16), timeout_thorough=7200),
         # at emission, every correct peer is cloned by replay and judged at once (the variant the property's quantifier names for the thorough tier)
-        dict(test="TestC11Clone", quick=(100, 8), thorough=(4000, 16), timeout_thorough=7200),
+        dict(test="TestC11Clone", quick=(100, 8), thorough=(1500, 16), timeout_thorough=7200),
     ],
     "C10": [
-        dict(test="TestC10", quick=(2500, 16), thorough=(40000, 16), timeout_thorough=7200),
-        dict(test="TestC10N", quick=(5000, 6), thorough=(120000, 8), timeout_thorough=7200),
+        dict(test="TestC10", quick=(2500, 16), thorough=(15000, 16), timeout_thorough=7200),
+        dict(test="TestC10N", quick=(5000, 6), thorough=(50000, 8), timeout_thorough=7200),
     ],
     "C12": [
-        dict(test="TestC12N", quick=(4000, 8), thorough=(150000, 8), timeout_thorough=7200),
+        dict(test="TestC12N", quick=(4000, 8), thorough=(60000, 8), timeout_thorough=7200),
         dict(test="TestC12R", quick=(100, 8), thorough=(1500, 8), race=True, timeout=1500, timeout_thorough=7200),
         # ValidateBlockConsensus / GetMemberIdsFromBlockProof: sequences on one instance, hostile bytes in a reused buffer
         dict(test="TestC12Proofs", quick=(8000, 4), thorough=(200000, 8)),
@@ -46,26 +46,26 @@ PLAN = {
     ],
     "C13": [
         dict(test="TestC13R", quick=(120, 10), thorough=(1500, 8), race=True, timeout=1500, timeout_thorough=7200),
-        dict(test="TestC13S", quick=(2000, 6), thorough=(40000, 8), timeout_thorough=7200),
+        dict(test="TestC13S", quick=(2000, 6), thorough=(15000, 8), timeout_thorough=7200),
         # views at the top of the 64-bit range (valid NEW_VIEWs into them, then timeouts): no wrap-around
-        dict(test="TestC13N", quick=(3000, 4), thorough=(100000, 8)),
+        dict(test="TestC13N", quick=(3000, 4), thorough=(50000, 8)),
     ],
     "C14": [
         dict(test="TestC14R", quick=(150, 16), thorough=(1500, 16), race=True, timeout=1500, timeout_thorough=7200),
-        dict(test="TestC14S", quick=(1500, 6), thorough=(30000, 8), timeout_thorough=7200),
+        dict(test="TestC14S", quick=(1500, 6), thorough=(12000, 8), timeout_thorough=7200),
     ],
     "C15": [
         dict(test="TestC15Exhaustive", kind="plain", quick=(0, 1), thorough=(0, 1), timeout_thorough=3600),
         dict(test="TestC15Registry", quick=(20000, 3), thorough=(400000, 4)),
         dict(test="TestC15R", quick=(120, 12), thorough=(1500, 12), race=True, timeout=1500, timeout_thorough=7200),
         # deterministic engine: main-loop events that land while a node's worker is inside a consumer call
-        dict(test="TestC15S", quick=(1500, 6), thorough=(30000, 8), timeout_thorough=7200),
+        dict(test="TestC15S", quick=(1500, 6), thorough=(12000, 8), timeout_thorough=7200),
     ],
     "C17": [
         dict(test="TestC17Exhaustive", kind="plain", quick=(0, 1), thorough=(0, 1), timeout_thorough=3600),
         dict(test="TestC17Random", quick=(15000, 8), thorough=(400000, 8)),
         # node-level view in cluster executions with membership changes between heights
-        dict(test="TestC17S", quick=(1500, 8), thorough=(30000, 8), timeout_thorough=7200),
+        dict(test="TestC17S", quick=(1500, 8), thorough=(12000, 8), timeout_thorough=7200),
     ],
     "C19": [
         dict(test="TestC19FormulaDense", kind="plain", quick=(0, 1), thorough=(0, 1)),
@@ -80,16 +80,16 @@ PLAN = {
     "C20": [
         dict(test="TestC20", quick=(6000, 16), thorough=(200000, 16), timeout_thorough=7200),
         # what correct nodes actually put on the wire in generated cluster executions (votes and proofs nested from stored messages)
-        dict(test="TestC20S", quick=(1200, 8), thorough=(30000, 8), timeout_thorough=7200),
+        dict(test="TestC20S", quick=(1200, 8), thorough=(12000, 8), timeout_thorough=7200),
         dict(test="FuzzC20", kind="fuzz", fuzztime=180),
     ],
     "C16": [dict(test="TestC16R", quick=(120, 16), thorough=(1500, 16), race=True, timeout=1500, timeout_thorough=7200)],
     "C18": [
         dict(test="TestC18Dense", kind="plain", quick=(0, 1), thorough=(0, 1)),
         dict(test="TestC18Leader", quick=(30000, 4), thorough=(1500000, 8)),
-        dict(test="TestC18N", quick=(4000, 8), thorough=(100000, 8), timeout_thorough=7200),
+        dict(test="TestC18N", quick=(4000, 8), thorough=(50000, 8), timeout_thorough=7200),
         # the member at position (view mod n) does take the lead when voted, also several rotations ahead of its own view
-        dict(test="TestC18Elect", quick=(4000, 4), thorough=(100000, 8)),
+        dict(test="TestC18Elect", quick=(4000, 4), thorough=(50000, 8)),
     ],
     "C06": [
         dict(test="TestC06Exhaustive", kind="plain", quick=(0, 1), thorough=(0, 1)),
@@ -98,7 +98,7 @@ PLAN = {
         # one committee slice object refreshed in place between calls (nothing remembered between calls may change a result)
         dict(test="TestC06Stateful", quick=(10000, 2), thorough=(300000, 4)),
         # the thresholds as the protocol logic applies them (prepared / committed / elected on a real node), both directions
-        dict(test="TestC06InUse", quick=(5000, 6), thorough=(150000, 8)),
+        dict(test="TestC06InUse", quick=(5000, 6), thorough=(60000, 8)),
     ],
 }
 
